@@ -23,7 +23,8 @@ def contracts(tier):
 
 
 def extra_obligations(tier):
-    return []
+    from contracts import hierarchical
+    return [solve.custom_result('hierarchical:HSpace[cache-invalidation]', hierarchical.F, 'HSpace.refine / _clear_cache', hierarchical.cache_invalidation_obligations)]
 
 
 MANIFEST = {
